@@ -530,7 +530,7 @@ package client
 //@     decreases len(rc.config.Conditions) - rangeindex
 
 // Trusted: lookups and the notification path of ruleRunActions do not write points (they are not part of the send log).
-// isChild(nc, p, c): the store behind nc lists c among the children of p (the answer to GetNodes(nc, p, "all", ...));
+// isChild(nc, p, c): the store behind nc lists c among the non-deleted children of p (the answer to GetNodes(nc, p, "all", ..., false));
 // the tree the bus shows does not change while a handler reads it, and has a height function (busRank).
 //@ model func isChild(nc *nats.Conn, p string, c string) bool
 //@ model func busRank(nc *nats.Conn, id string) int
@@ -540,8 +540,8 @@ package client
 //@   fresh res0
 //@   modifies state(nc)
 //@   ensures busOps(nc) == old(busOps(nc)) + 1 && logKept(nc) && sentN(nc) == old(sentN(nc)) && treeKept(nc)
-//@   ensures res1 == nil && id == "all" ==> (forall k int :: 0 <= k && k < len(res0) ==> isChild(nc, parent, res0[k].ID))
-//@   ensures res1 == nil && parent == "all" ==> (forall k int :: 0 <= k && k < len(res0) ==> res0[k].ID == id && isChild(nc, res0[k].Parent, id))
+//@   ensures res1 == nil && id == "all" && !includeDel ==> (forall k int :: 0 <= k && k < len(res0) ==> isChild(nc, parent, res0[k].ID))
+//@   ensures res1 == nil && parent == "all" ==> (forall k int :: 0 <= k && k < len(res0) ==> res0[k].ID == id && (!includeDel ==> isChild(nc, res0[k].Parent, id)))
 //@ extern data.(NodeEdge).Desc(n)
 //@ extern data.(*Notification).ToPb(n)
 //@   fresh res0
